@@ -30,7 +30,7 @@ def mutate(rng, data):
     return bytes(b)
 
 
-def run(ctx, n_write=None, n_mut=None, partial=False, writer_like=True, fail_prefix="C17"):
+def run(ctx, n_write=None, n_mut=None, partial=False, writer_like=True, fail_prefix="C17", empty_folders=False):
     rng = ctx.rng
     n_write = n_write or (1500 if ctx.thorough else 300)
     n_mut = n_mut or (6000 if ctx.thorough else 1200)
@@ -38,7 +38,7 @@ def run(ctx, n_write=None, n_mut=None, partial=False, writer_like=True, fail_pre
     rl, ro, rc = [], [], []
     written = []
     for i in range(n_write):
-        h = hdrlib.gen_header(rng, writer_like=writer_like, partial_vectors=partial)
+        h = hdrlib.gen_header(rng, writer_like=writer_like, partial_vectors=partial, allow_empty_folders=empty_folders)
         pos = rng.choice([0, 1, 2, 3, 32, 33, 34, 35, rng.randrange(0, 5000)])
         dump = hdrlib.d_header(h)
         out = hdrlib.impl_write_raw(h, pos)
